@@ -99,7 +99,7 @@ type c10case struct {
 
 func c10cases(env *core.Env) []c10case {
 	var cs []c10case
-	n := env.Pick(10000, 150000)
+	n := env.Pick(10000, 60000)
 	for i := 0; i < n; i++ {
 		cs = append(cs, c10case{Policy: c10policies[i%4], Store: []string{"mem", "minimal"}[(i/4)%2], NoSeek: (i/8)%3 == 2, TreeSeed: int64(i)})
 	}
